@@ -60,6 +60,11 @@ func FuzzC12(f *testing.F) {
 	for _, s := range []string{"a := 5\nb := a - 1\nprint(b)\n", "x := -1\nprint(x - -1)\n", "s := []int{1, 2}\nprint(s[len(s) - 1])\n", "switch 1 {\n\ncase 1:\n\tprint(1)\n}\n", "var a, b int = 1, 2\na, b = b, a\n"} {
 		f.Add([]byte(s), layouts[1])
 	}
+	// files ending in every kind of token (the last token meets the end of the file when the final line break is dropped)
+	for _, s := range []string{"x := 1\nx++\n", "x := 1\nx--\n", "x := 1\nx += 2\n", "x := 1\nx = x\n", "x := true\n", "x := \"s\"\n", "x := `r`\n", "x := []int{1}\n", "s := []int{1}\nx := s[0]\n",
+		"print(1)\n", "if true {\n}\n", "import \"strings\"\n", "x := 1 // c\n", "x := 1 /* c */\n", "func f() {\n}\nf()\n", "x := 5\ny := x - 1\n", "x := -1\n", "for {\n\tbreak\n}\n", "x := nil\n"} {
+		f.Add([]byte(s), layouts[0])
+	}
 	f.Fuzz(func(t *testing.T, data []byte, layout []byte) {
 		src := string(data)
 		toks, ok := fuzzLexable(src)
@@ -74,6 +79,18 @@ func FuzzC12(f *testing.F) {
 		cc := layoutCase{Kind: "layout-pair", Property: "C12", Original: src, Relaid: strings.ReplaceAll(src, "\n", "\r\n"), Edits: []string{"whole-file-crlf"}}
 		if kind, msg := checkLayoutPair(cc); kind != "" {
 			fail(cc, kind, msg)
+		}
+		// presence or absence of the final line break
+		if trimmed := strings.TrimRight(src, "\n"); trimmed != src && trimmed != "" {
+			fc := layoutCase{Kind: "layout-pair", Property: "C12", Original: src, Relaid: trimmed, Edits: []string{"final-newline-dropped"}}
+			if kind, msg := checkLayoutPair(fc); kind != "" {
+				fail(fc, kind, msg)
+			}
+		} else if trimmed == src {
+			fc := layoutCase{Kind: "layout-pair", Property: "C12", Original: src, Relaid: src + "\n", Edits: []string{"final-newline-added"}}
+			if kind, msg := checkLayoutPair(fc); kind != "" {
+				fail(fc, kind, msg)
+			}
 		}
 		if len(layout) == 0 {
 			return
